@@ -82,6 +82,7 @@ def check(run):
     _r3(run, results, classes)
     _r45(run, gmod, smod)
     _r6(run, prog)
+    _r7(run, classes)
 
 
 def _helpers(prog, ci):
@@ -385,6 +386,35 @@ class PrimEval(SymEval):
         return super().call(n)
 
 
+def _r7(run, classes):
+    """The ratios checked by the constructor (sum to one) are the ratios used later: the model keeps its own copy of the multiplet table."""
+    from ..flow import copy_kind, stores
+    from ..inline import resolver
+    run.describe('C02-R7', 'MultipletLineShape keeps a copy of the multiplet table it validated (not the caller\'s array)')
+    ci = classes['MultipletLineShape']
+    init = ci.methods.get('__init__')
+    run.subject('C02-R7')
+    if init is None:
+        run.undecided('C02-R7', 'MultipletLineShape.__init__', 'constructor not found')
+        return
+    param = [a.arg for a in init.args.args if 'multiplet' in a.arg]
+    res = resolver(init)
+    sts = [(t, v, st) for t, v, st in stores(init) if isinstance(t, ast.Attribute) and norm(t) in ('self._multiplet', 'self._multiplet_mv')]
+    if not param or not sts:
+        run.undecided('C02-R7', 'MultipletLineShape.__init__', 'multiplet parameter / store not recognised')
+        return
+    kinds = [(copy_kind(res(v), set(param)), st) for t, v, st in sts if norm(v) != 'self._multiplet']
+    bad = [st for k, st in kinds if k == 'alias']
+    if bad:
+        run.fail('C02-R7', '%s|MultipletLineShape|__init__|alias' % ci.mod.name, ci.mod.relpath, bad[0].lineno,
+                 "MultipletLineShape stores %s: a float64 array given by the caller is kept as is, so changing it afterwards changes the component ratios of "
+                 "the model and they no longer sum to one (the check is only done in the constructor)" % norm(res(bad[0].value))[:70])
+    elif kinds and all(k == 'copy' for k, st in kinds):
+        run.ok('C02-R7', 'MultipletLineShape table', 'stored as %s' % norm(res(sts[0][1]))[:50])
+    else:
+        run.undecided('C02-R7', 'MultipletLineShape.__init__', 'conversion not recognised')
+
+
 def _r6(run, prog):
     """The quadrature table used for the Stark profile is rebuilt whenever its order range changes."""
     from ..effects import Effects, self_chain
@@ -633,6 +663,7 @@ _MU = LS + 'multiplet.pyx'
 _AZ = 'cherab/core/atomic/zeeman.pyx'
 _GQ = 'cherab/core/math/integrators/integrators1d.pyx'
 MUTANTS = [
+    dict(name='multiplet-table-not-copied', file=LS + 'multiplet.pyx', find="        multiplet = np.array(multiplet, dtype=np.float64)", replace="        multiplet = np.ascontiguousarray(multiplet, dtype=np.float64)", expect='C02-R7'),
     dict(name='stark-sigma-from-zeroed-width', edits=[
         dict(file=LS + 'stark.pyx', find="        sigma = fwhm_full / _SIGMA2FWHM\n\n        fwhm_lorentz_to_total", replace="        fwhm_lorentz_to_total"),
         dict(file=LS + 'stark.pyx', find="        gauss_weight = 1 - lorentz_weight\n", replace="        gauss_weight = 1 - lorentz_weight\n        sigma = fwhm_full / _SIGMA2FWHM\n")],
